@@ -153,6 +153,8 @@ class Reducer:
             return Poly.const(int(v) if float(v) == int(v) else v)
         if k == 'Ref':
             d = n.get('d')
+            if getattr(self, '_env', None) is not None and d in self._env:
+                return self._env[d]
             if d in self.outs:
                 return Poly.sym(self.outs[d])
             if d in self.param_roles:
@@ -213,6 +215,87 @@ class Reducer:
             if n.get('k') == 'CAssign' and n.get('op') == '+=' and self.in_loop(n) and target_pred(n['c'][0]):
                 out.append(n)
         return out
+
+    def branch_contribution(self, acc_d, branch, rec_result_sym='B'):
+        """What one iteration of the child loop adds to the local accumulator acc_d on the branch 'std' / 'nonstd' (is the child's reference a
+        standard unit?), by executing the loop body symbolically: locals assigned on the way are tracked, an `if` on isStandardUnitName(ref) is
+        followed on the given side only, early failure exits are ignored, and a local handed by reference to the recursive call holds the
+        child's total afterwards.  Returns a Poly or None when the body has a statement the executor does not understand."""
+        f = self.f
+        env = {}
+        total = [Poly()]
+        ok = [True]
+
+        def run(st):
+            if st is None or not ok[0]:
+                return
+            k = st.get('k')
+            c = st.get('c', [])
+            if k in ('Compound',):
+                for x in c:
+                    run(x)
+            elif k == 'DeclStmt':
+                for v in c:
+                    if v.get('k') == 'Var':
+                        self._env = env
+                        env[v['d']] = self.ev(v['c'][0]) if v.get('c') else Poly.sym('?' + v.get('n', ''))
+            elif k == 'Var':
+                self._env = env
+                env[st['d']] = self.ev(c[0]) if c else Poly.sym('?' + st.get('n', ''))
+            elif k == 'If':
+                cnd = role(st, 'cond')
+                side = None
+                for x in walk(cnd):
+                    if x.get('k') == 'Call' and x.get('fn') == 'isStandardUnitName' and x.get('c'):
+                        self._env = env
+                        if self.ev(x['c'][0]) == Poly.sym('ref'):
+                            neg = any(u.get('k') == 'Un' and u.get('op') == '!' and any(y is x for y in walk(u)) for u in walk(cnd))
+                            side = ('then' if branch == 'std' else 'else') if not neg else ('else' if branch == 'std' else 'then')
+                # a recursive call inside the condition (`if (!update(child, 1, local, path)) return false;`) defines the local it is given
+                for x in walk(cnd):
+                    if x.get('k') == 'Call' and f.key in self.F.callee_keys(x):
+                        bind_rec(x)
+                if side is not None:
+                    run(role(st, side))
+                else:
+                    th, el = role(st, 'then'), role(st, 'else')
+                    only_exit = th is not None and all(y.get('k') in ('Return', 'Compound', 'Bool', 'Continue', 'Break') or y is th for y in walk(th) if y.get('k') in ('Return', 'Compound', 'Continue', 'Break', 'CAssign', 'Bin', 'Call', 'DeclStmt'))
+                    if only_exit and el is None:
+                        return      # failure exit: contributes nothing to a successful reduction
+                    ok[0] = False
+            elif k == 'CAssign' and st.get('op') in ('+=', '-=') and c and c[0].get('k') == 'Ref':
+                self._env = env
+                v = self.ev(c[1])
+                if st['op'] == '-=':
+                    v = -v
+                if c[0].get('d') == acc_d:
+                    total[0] = total[0] + v
+                else:
+                    env[c[0]['d']] = env.get(c[0]['d'], Poly.sym('?' + c[0].get('n', ''))) + v
+            elif k == 'Bin' and st.get('op') == '=' and c and c[0].get('k') == 'Ref':
+                self._env = env
+                env[c[0]['d']] = self.ev(c[1])
+            elif k == 'Call':
+                if f.key in self.F.callee_keys(st):
+                    bind_rec(st)
+                # other calls (unitAttributes fills its out-parameters: roles already known) have no effect on the sum
+            elif k in ('Return', 'Continue', 'Break', 'Null', 'ExprWithCleanups'):
+                for x in c:
+                    run(x)
+            else:
+                for x in c:
+                    if x.get('k') in ('CAssign', 'Bin', 'Call', 'If', 'Compound', 'DeclStmt'):
+                        run(x)
+
+        def bind_rec(call):
+            for a in call.get('c', []):
+                if a.get('k') == 'Ref' and a.get('dk') == 'local' and 'double' in (a.get('t') or ''):
+                    env[a['d']] = Poly.sym(rec_result_sym)
+
+        body = role(self.loop, 'body')
+        run(body)
+        self._env = None
+        return total[0] if ok[0] else None
 
     def recursive_calls(self):
         return [n for n in self.f.walk() if n.get('k') == 'Call' and self.f.key in self.F.callee_keys(n)]
